@@ -604,6 +604,47 @@ theorem subst_accept_iff (q : Quirks) (h : Hier) (wo : WellOrdered h) (co : Comp
     simp [ha, hbs, hb1, hrb]
 
 
+/-- **C07, substitution, block declared on the head's TYPE only.**  Even when the head element's own
+    block is EMPTY (no method and no 'substitution': absent with an empty blockDefault, or `block=""`
+    overriding blockDefault), a member whose type's derivation from the head's type uses a method
+    listed in the block of the head's TYPE is not accepted: the blocking set is the union of the two. -/
+theorem subst_type_block_alone (q : Quirks) (h : Hier) (wo : WellOrdered h) (co : ComplexOnly h) (es : List EDecl)
+    (ewo : EWellOrdered es) (head m : Nat) (H M : EDecl) (hH : es[head]? = some H)
+    (hM : es[m]? = some M) (TM D : TDef) (hTM : h[M.ty]? = some TM) (hD : h[H.ty]? = some D)
+    (hDa : D.anyType = false) (fuel : Nat) (hf1 : h.length ≤ fuel) (hf2 : es.length ≤ fuel)
+    (_hbe : H.block = []) (_hbs : H.blockSubst = false)
+    (mth : Meth) (hm : mth ∈ D.block) (ms : List (Option Meth)) (hc : Chain h M.ty H.ty ms)
+    (hin : some mth ∈ ms) (hne : M.ty ≠ H.ty) :
+    substVerdict q fuel h es head m ≠ .accepted := by
+  intro hv
+  obtain ⟨H', M', D', e1, e2, e3, _, _, _, hnb⟩ :=
+    (subst_accept_iff q h wo co es ewo head m H M hH hM TM D hTM hD hDa fuel hf1 hf2).mp hv
+  rw [hH] at e1; cases e1
+  rw [hM] at e2; cases e2
+  rw [hD] at e3; cases e3
+  exact hnb ⟨hne, mth, List.mem_append.mpr (Or.inr hm), ms, hc, hin⟩
+
+/-- With an empty head block the verdict is decided by the block of the head's type alone. -/
+theorem subst_accept_empty_head_block (q : Quirks) (h : Hier) (wo : WellOrdered h) (co : ComplexOnly h)
+    (es : List EDecl) (ewo : EWellOrdered es) (head m : Nat) (H M : EDecl) (hH : es[head]? = some H)
+    (hM : es[m]? = some M) (TM D : TDef) (hTM : h[M.ty]? = some TM) (hD : h[H.ty]? = some D)
+    (hDa : D.anyType = false) (fuel : Nat) (hf1 : h.length ≤ fuel) (hf2 : es.length ≤ fuel)
+    (hbe : H.block = []) (hbs : H.blockSubst = false) :
+    substVerdict q fuel h es head m = .accepted ↔
+      (Reach es m head ∧ M.abstract = false ∧ ¬ BlockedSpec h M.ty D.block H.ty) := by
+  rw [subst_accept_iff q h wo co es ewo head m H M hH hM TM D hTM hD hDa fuel hf1 hf2]
+  constructor
+  · rintro ⟨H', M', D', e1, e2, e3, hre, ha, _, hnb⟩
+    rw [hH] at e1; cases e1
+    rw [hM] at e2; cases e2
+    rw [hD] at e3; cases e3
+    rw [hbe, List.nil_append] at hnb
+    exact ⟨hre, ha, hnb⟩
+  · rintro ⟨hre, ha, hnb⟩
+    refine ⟨H, M, D, hH, hM, hD, hre, ha, hbs, ?_⟩
+    rw [hbe, List.nil_append]; exact hnb
+
+
 /-! ## simple types (what the simple variant of `is_derived` does with a `derivation` argument) -/
 
 /-- A simple type defined by restriction is never derived "by extension" from another type: the
@@ -972,6 +1013,13 @@ def f5 : Hier :=
 theorem f5_pinned_counterexample : isBlocked .pinned 5 f5 3 [.ext] 0 = some false := by decide
 theorem f5_repaired : isBlocked .repaired 5 f5 3 [.ext] 0 = some true ∧
     isBlocked .repaired 5 f5 1 [.ext] 0 = some false ∧ isBlocked .repaired 5 f5 1 [.restr] 0 = some true := by decide
+/-- block on the head's type only: 0 = Base (block extension), 1 = Ext, 2 = Res; head e0 : Base with an
+    EMPTY block, members 1 : Ext (blocked), 2 : Res (accepted), 3 : Base (accepted) -/
+def tb : Hier := [ { block := [.ext] }, { base := some 0, deriv := some .ext }, { base := some 0, deriv := some .restr } ]
+def tbE : List EDecl := [ { ty := 0 }, { ty := 1, subst := some 0 }, { ty := 2, subst := some 0 }, { ty := 0, subst := some 0 } ]
+theorem type_block_alone_witness :
+    substVerdict .repaired 4 tb tbE 0 1 = .blocked ∧ substVerdict .repaired 4 tb tbE 0 2 = .accepted ∧
+    substVerdict .repaired 4 tb tbE 0 3 = .accepted := by decide
 end Witness
 
 /-! ## Non-vacuity -/
